@@ -21,6 +21,8 @@ CONSTANTS
   FailSet = {0, 1, 2}
   MaxReq = 1
   SharedBuf = FALSE
+  Deadl = FALSE
+  KACloseOnDone = FALSE
   MmEncodeInAdd = FALSE
 INVARIANT CompleteLast
 CHECK_DEADLOCK FALSE
